@@ -96,6 +96,39 @@ func unqualifiedName(msg string) string {
 	return rest[:n]
 }
 
+var rePosAnywhere = regexp.MustCompile(`(?:line (\d+), )?column (\d+): (.*)$`)
+
+// prepareParse: what sqlair.Prepare (without type samples) says about the query text: ok when the
+// parser accepted it (a later type error is not a parse error), else the position and the message
+// the error names, wherever they stand in it.
+func prepareParse(q string) (res parseResult) {
+	defer func() {
+		if r := recover(); r != nil {
+			res = parseResult{panicked: fmt.Sprint(r), raw: "PANIC " + fmt.Sprint(r)}
+		}
+	}()
+	_, err := sqlair.Prepare(q)
+	if err == nil {
+		return parseResult{ok: true}
+	}
+	msg := err.Error()
+	if !strings.Contains(msg, "cannot parse expression") && rePosAnywhere.FindStringSubmatch(strings.ReplaceAll(msg, "\n", "\x00")) == nil {
+		return parseResult{ok: true, raw: msg}
+	}
+	m := rePosAnywhere.FindStringSubmatch(strings.ReplaceAll(msg, "\n", "\x00"))
+	if m == nil {
+		return parseResult{pos: false, raw: msg}
+	}
+	r := parseResult{pos: true, line: 1, raw: msg}
+	if m[1] != "" {
+		r.line, _ = strconv.Atoi(m[1])
+		r.hasLine = true
+	}
+	r.col, _ = strconv.Atoi(m[2])
+	r.msg = strings.ReplaceAll(m[3], "\x00", "\n")
+	return r
+}
+
 func implParse(q string) (res parseResult) {
 	defer func() {
 		if r := recover(); r != nil {
@@ -314,8 +347,14 @@ func parseOracles(q string, r parseResult, shifts []int, add func(violation)) {
 						}
 					}
 					if !inside {
-						v("C02", "expression-outside-literals-left-in-pass-through-text", fmt.Sprintf("%q at byte %d", q[a:off+m[1]], a))
 						v("C01", "expression-outside-literals-left-in-pass-through-text", fmt.Sprintf("%q at byte %d", q[a:off+m[1]], a))
+						// a matter of C02 when a literal or comment ends before it: the parser took it to go on
+						for _, rg := range regions {
+							if rg[1] <= a {
+								v("C02", "expression-outside-literals-left-in-pass-through-text", fmt.Sprintf("%q at byte %d, after the literal or comment %q", q[a:off+m[1]], a, q[rg[0]:rg[1]]))
+								break
+							}
+						}
 					}
 				}
 			}
@@ -327,19 +366,29 @@ func parseOracles(q string, r parseResult, shifts []int, add func(violation)) {
 		}
 	}
 	if !r.ok {
-		// the public entry point reports the very same error (Prepare, called for one query after the
-		// other in this process, as an application does)
-		perr := func() (e error) {
-			defer func() {
-				if rec := recover(); rec != nil {
-					e = fmt.Errorf("PANIC %v", rec)
+		// the same through the public entry point (Prepare, called for one query after the other in this
+		// process, as an application does): its error names a position inside the query, and k newlines
+		// in front move the line by k and nothing else.  (How Prepare wraps the error is its business.)
+		p0 := prepareParse(q)
+		n, lens := lineInfo(q)
+		switch {
+		case p0.ok:
+			// Prepare did not report a parse error here: nothing to hold against C19
+		case !p0.pos:
+			v("C19", "parse-error-without-position", "Prepare: "+p0.raw)
+		default:
+			if p0.col < 1 || p0.line < 1 || p0.line > n || p0.col > lens[p0.line-1]+1 {
+				v("C19", "position-out-of-range", fmt.Sprintf("Prepare: line %d col %d (lines %d): %s", p0.line, p0.col, n, p0.raw))
+			}
+			if n > 1 && !p0.hasLine {
+				v("C19", "no-line-for-a-query-of-several-lines", "Prepare: "+p0.raw)
+			}
+			for _, k := range shifts {
+				pk := prepareParse(strings.Repeat("\n", k) + q)
+				if pk.ok || !pk.pos || pk.msg != p0.msg || pk.col != p0.col || pk.line != p0.line+k {
+					v("C19", "shift", fmt.Sprintf("Prepare, k=%d: line %d col %d %q  vs  line %d col %d %q", k, p0.line, p0.col, p0.msg, pk.line, pk.col, pk.msg))
 				}
-			}()
-			_, e = sqlair.Prepare(q)
-			return e
-		}()
-		if perr == nil || perr.Error() != r.raw {
-			v("C19", "prepare-reports-another-error-than-the-parser-alone", fmt.Sprintf("Prepare: %v; parser: %s", perr, r.raw))
+			}
 		}
 	}
 	if !r.ok && r.pos {
